@@ -27,7 +27,7 @@ def framework_tables(spec):
             "is sink": _yn(kind == "sink"),
             "is junction": _yn(kind == "junc"),
             "databook page": "comps" if c.get("db") else None,
-            "default value": None if (c.get("db") or kind in ("src", "sink")) else 0,
+            "default value": None if (c.get("db") or c.get("free") or kind in ("src", "sink")) else 0,
             "population type": c.get("type", types[0]),
         }
         if c.get("sw") is not None:
